@@ -62,6 +62,9 @@ pub fn install_panic_hook() {
                 format!("{}:{}", f, l.line())
             })
             .unwrap_or_default();
+        if std::env::var_os("VERIF_SHOW_PANICS").is_some() {
+            eprintln!("panic: {msg} @ {loc}");
+        }
         LAST_PANIC.with(|p| *p.borrow_mut() = Some(format!("{msg} @ {loc}")));
     }));
 }
